@@ -58,13 +58,11 @@ ASSUMPTIONS = [
     'third-party optproblems (DTLZ/ZDT/WFG) objective functions are trusted',
 ]
 
-U = st.one_of(st.sampled_from([0.0, 1.0, 0.5]),
-              st.floats(min_value=0.0, max_value=1.0, allow_nan=False,
-                        width=32))
+_UF = st.floats(min_value=0.0, max_value=1.0, allow_nan=False, width=32)
+U = st.one_of(st.sampled_from([0.0, 1.0, 0.5]), _UF, _UF)
 FRAC = st.one_of(st.sampled_from([0.0, 0.25, -0.25, 0.9, -0.9]),
                  st.floats(min_value=-0.875, max_value=0.875, allow_nan=False,
                            width=32))
-SEED = st.integers(0, 5)
 # BBOB f19 (Griewank-Rosenbrock) averages over D-1 terms: the suite defines it
 # for D >= 2 only; bbob.GriewankRosenbrock divides by zero for D == 1
 DIM2_ONLY = ('GriewankRosenbrock',)
@@ -274,7 +272,8 @@ def stack_case(draw):
   """A free stack, or a recipe that makes one of the rule's classes likely."""
   recipe = draw(st.sampled_from(['free'] * 7 + [
       'aux_flip', 'aux_flip', 'perm', 'perm', 'shift', 'shift', 'norm',
-      'norm', 'combine', 'combine', 'combine']))
+      'norm', 'combine', 'combine', 'combine', 'region', 'region', 'cube',
+      'cube']))
   used = []
   if recipe == 'combine':
     node, sig = draw(combiner())
@@ -302,6 +301,18 @@ def stack_case(draw):
     node, sig, used = draw(wrap(node, sig, used, only=['shift'], force={
         'fracs': draw(st.lists(NONZERO, min_size=1, max_size=6))}))
     d = draw(st.sampled_from([0, 1, 1, 2]))
+  elif recipe == 'cube':
+    if draw(st.booleans()) and any(k == 'D' for k in sig['kinds']):
+      node, sig, used = draw(wrap(node, sig, used, only=['discretize']))
+    node, sig, used = draw(wrap(node, sig, used, only=['hypercube']))
+    d = draw(st.sampled_from([0, 0, 1]))
+  elif recipe == 'region':
+    if draw(st.booleans()):
+      node, sig, used = draw(wrap(node, sig, used))
+    if sig['flat'] and any(k != 'C' for k in sig['kinds']):
+      node, sig, used = draw(wrap(node, sig, used, only=['infeasible_region'],
+                                  force={'interval': [draw(_UF), draw(_UF)]}))
+    d = draw(st.sampled_from([0, 0, 1]))
   elif recipe == 'norm':
     if draw(st.booleans()):
       node, sig, used = draw(wrap(node, sig, used))
